@@ -6,6 +6,7 @@ pub mod c06;
 pub mod c07;
 pub mod c09;
 pub mod c10;
+pub mod c11;
 pub mod c12;
 pub mod c15;
 pub mod c16;
@@ -33,5 +34,6 @@ pub fn all() -> Vec<Entry> {
         Entry { scn: &c10::C10Flush, quick_runs: 30_000, thorough_runs: 2_000_000 },
         Entry { scn: &c10::C10Agent, quick_runs: 20_000, thorough_runs: 1_000_000 },
         Entry { scn: &c10::C09Agent, quick_runs: 20_000, thorough_runs: 1_000_000 },
+        Entry { scn: &c11::C11Tcp, quick_runs: 20_000, thorough_runs: 1_000_000 },
     ]
 }
